@@ -333,7 +333,14 @@ fn gen_hist(prop: &str, rng: &mut Rng) -> (Config, Vec<Op>) {
     // many short, diverse runs beat a few long ones: almost half of the runs are "tiny"
     // (one or two stores of 0-3 records, 3-9 further ops)
     let tiny = !deep() && rng.chance(4, 9);
-    let n_stores = if tiny {
+    // one run in 150 (one deep run in 6) is "big": a single store of more than a thousand (or
+    // four thousand) records drawn from a tiny pool, under a limit large enough for the
+    // completeness clauses to apply (|store| <= 10*limit, or limit > |store|)
+    let big: usize = if matches!(prop, "C06" | "C10" | "C12" | "C01") && (if deep() { rng.chance(1, 6) } else { rng.chance(1, 150) }) { if rng.chance(1, 3) { rng.range(4100, 5000) } else { rng.range(1030, 1600) } } else { 0 };
+    let tiny = tiny && big == 0;
+    let n_stores = if big > 0 {
+        1
+    } else if tiny {
         rng.range(1, 2)
     } else {
         match rng.below(10) {
@@ -358,7 +365,7 @@ fn gen_hist(prop: &str, rng: &mut Rng) -> (Config, Vec<Op>) {
         "C12" => rng.weighted(&[4, 5, 1]),
         _ => rng.weighted(&[4, 5, 1]),
     } };
-    let len = if deep() { rng.range(100, 600) } else if tiny { rng.range(3, 9) } else if rng.chance(1, 3) { rng.range(3, 12) } else if rng.chance(3, 4) { rng.range(13, 60) } else { rng.range(61, 200) };
+    let len = if big > 0 { rng.range(3, 10) } else if deep() { rng.range(100, 600) } else if tiny { rng.range(3, 9) } else if rng.chance(1, 3) { rng.range(3, 12) } else if rng.chance(3, 4) { rng.range(13, 60) } else { rng.range(61, 200) };
     // op mix
     let w_add = rng.range(1, 6);
     let w_clear = if f_clear { rng.range(1, 3) } else { 0 };
@@ -375,12 +382,12 @@ fn gen_hist(prop: &str, rng: &mut Rng) -> (Config, Vec<Op>) {
     for s in 0..n_stores {
         let lang = pick_lang(rng);
         let thread = rng.below(threads);
-        let n0 = match size_class {
+        let n0 = if big > 0 { big } else { match size_class {
             0 => rng.range(0, 3),
             1 => rng.range(0, 30),
             _ => if deep() { rng.range(200, 1500) } else { rng.range(31, 400) },
-        };
-        let pool_size = if rng.chance(1, 3) { rng.range(1, 6) } else { rng.range(3, n0.max(3) * 2) };
+        } };
+        let pool_size = if big > 0 { rng.range(2, 12) } else if rng.chance(1, 3) { rng.range(1, 6) } else { rng.range(3, n0.max(3) * 2) };
         let rating_mode = match prop {
             "C12" => *rng.pick(&[RatingMode::Distinct, RatingMode::FewValues, RatingMode::FewValues, RatingMode::AllEqual, RatingMode::Random, RatingMode::Distinct, RatingMode::FewValues, RatingMode::Huge]),
             "C06" | "C07" => *rng.pick(&[RatingMode::Distinct, RatingMode::Distinct, RatingMode::Distinct, RatingMode::FewValues, RatingMode::Distinct, RatingMode::Distinct, RatingMode::FewValues, RatingMode::Huge]),
@@ -393,7 +400,10 @@ fn gen_hist(prop: &str, rng: &mut Rng) -> (Config, Vec<Op>) {
             let (l, r) = *rng.pick(corpus::MARKERS);
             ops.push(Op::SetMarkers { s, l: l.into(), r: r.into() });
         }
-        if rng.chance(1, 2) {
+        if big > 0 {
+            g.limit = *rng.pick(&[200usize, 1000, 65536, n0 + 2]);
+            ops.push(Op::SetLimit { s, limit: g.limit });
+        } else if rng.chance(1, 2) {
             g.limit = pick_limit(rng, prop, n0);
             ops.push(Op::SetLimit { s, limit: g.limit });
         }
@@ -793,7 +803,11 @@ fn gen_scratch(_prop: &str, rng: &mut Rng, run: u64) -> (Config, Vec<Op>) {
         for k in 0..n {
             // lengths alternate short and long so that growth, re-init and shrink-after-grow occur
             let long = if rng.chance(1, 5) { rng.chance(1, 2) } else { k % 2 == 1 };
-            let alph = *rng.pick(&["aebc1_", "aebc1_", "ab", "abcdefghijklmnop", "aeiou", "bcdfg", "a1_", "аеёбв", "abcdefghijklmnopqrstuvwxyz", "abcdefghijklmnopqrstuvwxyz0123456789äöüßабвгдеёжзийклмнопрстуфхцчшщ"]);
+            let alph = if rng.chance(1, 4) {
+                *rng.pick(corpus::ALPHABETS)
+            } else {
+                *rng.pick(&["aebc1_", "aebc1_", "ab", "abcdefghijklmnop", "aeiou", "bcdfg", "a1_", "аеёбв", "abcdefghijklmnopqrstuvwxyz", "abcdefghijklmnopqrstuvwxyz0123456789äöüßабвгдеёжзийклмнопрстуфхцчшщ"])
+            };
             let a = if long { synth_word(rng, alph, 15, long_max) } else { synth_word(rng, alph, 0, 4) };
             let b = match rng.below(8) {
                 6 => {
@@ -812,7 +826,19 @@ fn gen_scratch(_prop: &str, rng: &mut Rng, run: u64) -> (Config, Vec<Op>) {
                 _ => synth_word(rng, alph, 0, 30),
             };
             match rng.below(12) {
-                0..=4 => plan.push(Op::Dist { t, ca: class_string(&a), cb: class_string(&b), a, b }),
+                0..=4 => {
+                    // one comparison in six has an "unfinished" word (what a typing user's last word is):
+                    // the distance is a function of the words and their classes, not of that flag
+                    let mut ca = class_string(&a);
+                    let mut cb = class_string(&b);
+                    if rng.chance(1, 6) {
+                        ca.push('~');
+                    }
+                    if rng.chance(1, 12) {
+                        cb.push('~');
+                    }
+                    plan.push(Op::Dist { t, ca, cb, a, b })
+                }
                 5..=7 => plan.push(Op::Jacc { t, a, b }),
                 8 => plan.push(Op::WMatch { t, r: a, q: b, fin: rng.chance(1, 2) }),
                 9 => plan.push(Op::JCheck { t, r: a, q: b, fin: rng.chance(1, 2) }),
@@ -821,7 +847,7 @@ fn gen_scratch(_prop: &str, rng: &mut Rng, run: u64) -> (Config, Vec<Op>) {
                     // compared one after the other (caches keyed on a truncated or hashed word)
                     // (the tail brings characters the prefix does not have, or the words would be equal as sets)
                     let pre_alph = *rng.pick(&["a", "ab", "0", "aeb", alph]);
-                    let tail_alph = *rng.pick(&["xyz12345678", "mnopqrstuvw", alph]);
+                    let tail_alph = *rng.pick(&["xyz12345678", "mnopqrstuvw", "pqrstuvwxy0123456789", alph]);
                     let base = synth_word(rng, pre_alph, 16, 40);
                     let tail = rng.range(1, 5);
                     let fin = rng.chance(1, 2);
